@@ -13,6 +13,7 @@ import (
 	"sort"
 	"strings"
 	"sync"
+	"time"
 
 	"github.com/openconfig/gribigo/server"
 	"google.golang.org/grpc/status"
@@ -113,12 +114,13 @@ var skipFields = map[string]bool{"id": true, "election_id": true}
 // unpopulated fields of its populated messages.
 func mutationsOf(msg proto.Message) []mutation {
 	var out []mutation
+	_, isOp := msg.(*spb.AFTOperation) // (id and election id of an operation are not content; those of a Flush are)
 	var walk func(m protoreflect.Message, path []step, depth int)
 	walk = func(m protoreflect.Message, path []step, depth int) {
 		fds := m.Descriptor().Fields()
 		for i := 0; i < fds.Len(); i++ {
 			fd := fds.Get(i)
-			if depth == 0 && skipFields[string(fd.Name())] {
+			if depth == 0 && isOp && skipFields[string(fd.Name())] {
 				continue
 			}
 			p := append([]step{}, path...)
@@ -421,6 +423,32 @@ func oneModify(pi int, op *spb.AFTOperation, desc string) (string, []fail) {
 	return oc, out
 }
 
+// oneModifyRT repeats a (mutated) operation inside one controlled execution together with the liveness probe: the
+// verdict and state oracles are oneModify's; this pass decides "does not hang or wedge other sessions".
+func oneModifyRT(pi int, op *spb.AFTOperation, desc string) []fail {
+	var out []fail
+	name := fmt.Sprintf("pre-state=%s %s", preStates[pi].name, desc)
+	x := rt.Run(rt.Options{}, func() {
+		s, err := build(pi)
+		if err != nil {
+			out = append(out, fail{"engine/build", err.Error()})
+			return
+		}
+		resCh := make(chan *spb.ModifyResponse, 64)
+		errCh := make(chan error, 64)
+		s.VerifDoModify("c0", []*spb.AFTOperation{proto.Clone(op).(*spb.AFTOperation)}, resCh, errCh)
+		rt.Quiesce()
+		out = append(out, probe(s, "after "+name)...)
+	})
+	switch {
+	case x.Crash != "":
+		out = append(out, fail{"C12/panic/" + panicSite(x.Crash), fmt.Sprintf("%s: the server panicked on operation {%s}: %s", name, ribx.Text(op), firstLine(x.Crash))})
+	case x.Deadlock:
+		out = append(out, fail{"C12/operation-hangs-or-wedges-the-server", fmt.Sprintf("%s: operation {%s}: the request or the session that follows it never terminates (blocked: %v)", name, ribx.Text(op), x.Blocked)})
+	}
+	return out
+}
+
 func firstLine(s string) string {
 	if i := strings.IndexByte(s, '\n'); i >= 0 {
 		return s[:i]
@@ -511,6 +539,19 @@ func Run(rep *report.Report, tier string) {
 		wg.Wait()
 	}
 	rt.MapOrder = 0
+	// liveness pass: every single-mutation case again, with the probe, inside one controlled execution
+	t0 := time.Now()
+	nLive := 0
+	for _, j := range jobs {
+		if strings.Contains(j.desc, " + ") {
+			continue // pairs: verdict and state oracles only
+		}
+		nLive++
+		for _, f := range oneModifyRT(j.pi, j.op, j.desc) {
+			rep.Violate(f.sig, f.what, map[string]any{"pre_state": preStates[j.pi].name, "mutation": j.desc, "operation": ribx.Text(j.op), "pass": "liveness"})
+		}
+	}
+	rep.Set("liveness_pass", map[string]any{"cases": nLive, "seconds": time.Since(t0).Seconds()})
 	// Get and Flush requests: executed under the controlled runtime so that a panic in a server goroutine is a
 	// verdict instead of the death of the worker.
 	nReq := 0
@@ -552,7 +593,7 @@ func Run(rep *report.Report, tier string) {
 			}
 		}
 	}
-	total := len(orders)*len(jobs) + nReq
+	total := len(orders)*len(jobs) + nReq + nLive
 	rep.Set("evaluations", total)
 	rep.Set("distinct_nontrivial", total)
 	rep.Set("states", total)
@@ -561,7 +602,7 @@ func Run(rep *report.Report, tier string) {
 	rep.Set("single_mutations", nSingles)
 	rep.Set("mutation_pairs", nPairs)
 	rep.Set("get_flush_requests", nReq)
-	rep.Set("rule", "mutation closure by protoreflect walk: every populated field and every unpopulated field of a populated message x operator set {clear/empty sub-message, other oneof arm, undefined/zero/last enum, boundary integers, bad strings, empty/long bytes, empty list, duplicated element}; each mutant x 3 pre-states (pairs: richest pre-state) x map iteration orders (quick: ascending, descending; thorough: also their rotations by 1 and 2 = all orders of a 3-element map); all cases distinct by construction")
+	rep.Set("rule", "mutation closure by protoreflect walk: every populated field and every unpopulated field of a populated message x operator set {clear/empty sub-message, other oneof arm, undefined/zero/last enum, boundary integers, bad strings, empty/long bytes, empty list, duplicated element}; each mutant x 3 pre-states (pairs: richest pre-state) x map iteration orders; every single-mutation case, Get and Flush again inside one controlled execution followed by a liveness probe (new session negotiates, wins the election, programs, reads back, flushes) (quick: ascending, descending; thorough: also their rotations by 1 and 2 = all orders of a 3-element map); all cases distinct by construction")
 	rep.Set("exhaustive", true)
 	rep.Set("distinct_outcomes", outcomes)
 	keys := make([]string, 0)
@@ -572,6 +613,73 @@ func Run(rep *report.Report, tier string) {
 	for i := 0; i < len(keys) && i < 300; i += 60 {
 		rep.Sample(keys[i])
 	}
+}
+
+// probe checks, inside the same controlled execution as the malformed request, that the server still serves other
+// sessions: a new session negotiates, wins the election with a higher id, programs an entry, reads it back and
+// flushes. A lock, goroutine or channel left behind by the request shows as the scheduler's deadlock verdict.
+func probe(s *server.Server, name string) []fail {
+	var out []fail
+	bad := func(sig, f string, a ...any) { out = append(out, fail{sig, name + ": " + fmt.Sprintf(f, a...)}) }
+	pid := &spb.Uint128{High: 7, Low: 7}
+	if err := s.VerifNewClient("probe"); err != nil {
+		bad("C12/server-unusable-after-request/new-session", "%v", err)
+		return out
+	}
+	p := &spb.SessionParameters{Redundancy: spb.SessionParameters_SINGLE_PRIMARY, Persistence: spb.SessionParameters_PRESERVE}
+	if _, err := s.VerifCheckParams("probe", p, false); err != nil {
+		bad("C12/server-unusable-after-request/negotiation", "%v", err)
+		return out
+	}
+	if err := s.VerifUpdateParams("probe", p); err != nil {
+		bad("C12/server-unusable-after-request/negotiation", "%v", err)
+		return out
+	}
+	if _, err := s.VerifRunElection("probe", pid); err != nil {
+		bad("C12/server-unusable-after-request/election", "%v", err)
+		return out
+	}
+	op := ribx.Op(1, V, spb.AFTOperation_ADD, ribx.NHEntry(77, "192.0.2.77"))
+	op.ElectionId = pid
+	resCh := make(chan *spb.ModifyResponse, 16)
+	errCh := make(chan error, 16)
+	s.VerifDoModify("probe", []*spb.AFTOperation{op}, resCh, errCh)
+	rt.Close(resCh) // (channels are the controlled runtime's inside a controlled execution)
+	ok := false
+	for {
+		r, more := rt.Recv2(resCh)
+		if !more {
+			break
+		}
+		for _, ar := range r.GetResult() {
+			if ar.GetId() == 1 && ar.GetStatus() == spb.AFTResult_RIB_PROGRAMMED {
+				ok = true
+			}
+		}
+	}
+	if !ok {
+		bad("C12/server-unusable-after-request/modify", "a valid operation of the new primary was not programmed")
+	}
+	st, err := wire.New(s).Get(context.Background(), &spb.GetRequest{NetworkInstance: &spb.GetRequest_Name{Name: V}, Aft: spb.AFTType_NEXTHOP})
+	found := false
+	for err == nil {
+		var r *spb.GetResponse
+		if r, err = st.Recv(); err == nil {
+			for _, e := range r.GetEntry() {
+				if e.GetNextHop().GetIndex() == 77 {
+					found = true
+				}
+			}
+		}
+	}
+	if err != io.EOF || (ok && !found) {
+		bad("C12/server-unusable-after-request/get", "Get of the probe entry: found=%v err=%v", found, err)
+	}
+	if _, err := s.Flush(context.Background(), &spb.FlushRequest{NetworkInstance: &spb.FlushRequest_All{All: &spb.Empty{}}, Election: &spb.FlushRequest_Id{Id: pid}}); err != nil {
+		bad("C12/server-unusable-after-request/flush", "%v", err)
+	}
+	s.VerifDeleteClient("probe")
+	return out
 }
 
 func oneGet(pi int, req *spb.GetRequest, desc string) (string, []fail) {
@@ -604,13 +712,14 @@ func oneGet(pi int, req *spb.GetRequest, desc string) (string, []fail) {
 		}
 		rt.Quiesce()
 		after = canon(s)
+		out = append(out, probe(s, fmt.Sprintf("pre-state=%s after Get %s", preStates[pi].name, desc))...)
 	})
 	name := fmt.Sprintf("pre-state=%s Get %s", preStates[pi].name, desc)
 	switch {
 	case x.Crash != "":
 		return "panic", append(out, fail{"C12/panic-in-get/" + panicSite(x.Crash), name + ": " + firstLine(x.Crash)})
 	case x.Deadlock:
-		return "hang", append(out, fail{"C12/get-hangs", fmt.Sprintf("%s: the Get RPC never terminates (blocked: %v)", name, x.Blocked)})
+		return "hang", append(out, fail{"C12/get-hangs-or-wedges-the-server", fmt.Sprintf("%s: the Get RPC or the session that follows it never terminates (blocked: %v)", name, x.Blocked)})
 	case before != after:
 		out = append(out, fail{"C12/get-changed-state", name + ": a Get changed server state"})
 	}
@@ -621,30 +730,33 @@ func oneGet(pi int, req *spb.GetRequest, desc string) (string, []fail) {
 }
 
 func oneFlush(pi int, req *spb.FlushRequest, desc string) (string, []fail) {
-	s, err := build(pi)
-	if err != nil {
-		return "engine", []fail{{"engine/build", err.Error()}}
-	}
-	before := canon(s)
-	var crash string
+	var out []fail
+	var before, after string
 	var ferr error
-	func() {
-		defer func() {
-			if r := recover(); r != nil {
-				crash = fmt.Sprintf("%v\n%s", r, debug.Stack())
-			}
-		}()
-		_, ferr = s.Flush(context.Background(), req)
-	}()
 	name := fmt.Sprintf("pre-state=%s Flush %s", preStates[pi].name, desc)
-	if crash != "" {
-		return "panic", []fail{{"C12/panic-in-flush/" + panicSite(crash), name + ": " + firstLine(crash)}}
+	x := rt.Run(rt.Options{}, func() {
+		s, err := build(pi)
+		if err != nil {
+			out = append(out, fail{"engine/build", err.Error()})
+			return
+		}
+		before = canon(s)
+		_, ferr = s.Flush(context.Background(), req)
+		rt.Quiesce()
+		after = canon(s)
+		out = append(out, probe(s, "after "+name)...)
+	})
+	switch {
+	case x.Crash != "":
+		return "panic", append(out, fail{"C12/panic-in-flush/" + panicSite(x.Crash), name + ": " + firstLine(x.Crash)})
+	case x.Deadlock:
+		return "hang", append(out, fail{"C12/flush-hangs-or-wedges-the-server", fmt.Sprintf("%s: the Flush RPC or the session that follows it never terminates (blocked: %v)", name, x.Blocked)})
 	}
 	if ferr != nil {
-		if after := canon(s); after != before {
-			return "error", []fail{{"C12/rejected-flush-changed-state", name + fmt.Sprintf(": rejected with %v but state changed", status.Code(ferr))}}
+		if after != before {
+			out = append(out, fail{"C12/rejected-flush-changed-state", name + fmt.Sprintf(": rejected with %v but state changed", status.Code(ferr))})
 		}
-		return "error-" + status.Code(ferr).String(), nil
+		return "error-" + status.Code(ferr).String(), out
 	}
-	return "ok", nil
+	return "ok", out
 }
